@@ -534,27 +534,32 @@ def main():
                 continue
             if not ghar:
                 continue
-            r, results, gwall, gcmd = run_kani(crate, ghar, timeout_s, jobs=args.jobs, dialect=gdia, contracts=cfg.get("contracts", False))
-            kani_wall += gwall
-            kani_cmd = (kani_cmd + " ;; " if kani_cmd else "") + gcmd
-            stdout_tail = (r.stdout or "")[-8000:]
-            logdir = os.environ.get("VERIF_EVIDENCE_DIR", os.path.join(VERIF, "logs"))
-            os.makedirs(logdir, exist_ok=True)
-            with open(os.path.join(logdir, "%s.%s.g%d.log" % (prop, tier, gi)), "w") as lf:
-                lf.write(gcmd + "\n==== stdout\n" + (r.stdout or "") + "\n==== stderr\n" + (r.stderr or ""))
-            if results is None:
-                both = re.sub(r"\x1b\[[0-9;]*m", "", (r.stdout or "") + "\n" + (r.stderr or ""))
-                blocks = re.findall(r"(?ms)^error(?:\[E\d+\])?:.*?(?=^\s*$)", both)
-                for b in blocks[:8]:
-                    log(b.rstrip()[:1500])
-                errs = [l for l in both.splitlines() if l.startswith("error")]
-                undecided.append(("*", "kani produced no results; first errors: %s" % errs[:5]))
-            else:
-                gper, gref, und = classify(results, ghar, r.stdout, prop, cfg.get("also_owns", []))
-                per.update(gper)
-                refuted += gref
-                undecided += und
-                replay_ctx.append((crate, gdia, set(ghar)))
+            # large sets run in batches, so that a crash of the Kani driver (e.g. killed for memory) loses one batch only
+            batch = int(os.environ.get("VERIF_BATCH", "120"))
+            all_ghar = ghar
+            for bi in range(0, len(all_ghar), batch):
+                ghar = all_ghar[bi:bi + batch]
+                r, results, gwall, gcmd = run_kani(crate, ghar, timeout_s, jobs=args.jobs, dialect=gdia, contracts=cfg.get("contracts", False))
+                kani_wall += gwall
+                kani_cmd = (kani_cmd + " ;; " if kani_cmd else "") + gcmd
+                stdout_tail = (r.stdout or "")[-8000:]
+                logdir = os.environ.get("VERIF_EVIDENCE_DIR", os.path.join(VERIF, "logs"))
+                os.makedirs(logdir, exist_ok=True)
+                with open(os.path.join(logdir, "%s.%s.g%d.b%d.log" % (prop, tier, gi, bi)), "w") as lf:
+                    lf.write(gcmd + "\n==== stdout\n" + (r.stdout or "") + "\n==== stderr\n" + (r.stderr or ""))
+                if results is None:
+                    both = re.sub(r"\x1b\[[0-9;]*m", "", (r.stdout or "") + "\n" + (r.stderr or ""))
+                    blocks = re.findall(r"(?ms)^error(?:\[E\d+\])?:.*?(?=^\s*$)", both)
+                    for b in blocks[:8]:
+                        log(b.rstrip()[:1500])
+                    errs = [l for l in both.splitlines() if l.startswith("error")]
+                    undecided.append(("*", "kani produced no results; first errors: %s" % errs[:5]))
+                else:
+                    gper, gref, und = classify(results, ghar, r.stdout, prop, cfg.get("also_owns", []))
+                    per.update(gper)
+                    refuted += gref
+                    undecided += und
+                    replay_ctx.append((crate, gdia, set(ghar)))
         if not wanted:
             undecided.append(("*", "no harness registered for %s/%s" % (prop, tier)))
         if not args.no_lemmas:
